@@ -92,6 +92,8 @@ def generate(rnd, tier):
         rows.append({"g": [rnd.choice(v) for v in vals], "label": rnd.choice(labs), "score": scores[i]})
     frame = {"group_cols": cols, "rows": rows, "extra_col": rnd.random() < 0.3, "index": rnd.choice(["default", "default", "shuffled", "str"]),
              "pos_label": pos_label, "int_scores": style == "int" and rnd.random() < 0.5}
+    if rnd.random() < 0.15:
+        frame["group_dtype"] = rnd.choice(["category", "string", "category_reordered"])  # string values, other pandas dtypes
     if not frame["int_scores"] and rnd.random() < 0.12:
         # single-precision score column whose values sit right next to one-decimal thresholds
         frame["score_dtype"] = rnd.choice(["float32", "float32", "float16"])
@@ -186,6 +188,14 @@ def build_frame(fr):
         data["extra"] = list(range(len(rows)))
         order = ["extra"] + order
     df = pd.DataFrame({c: data[c] for c in order})
+    gdt = fr.get("group_dtype")
+    for c in fr["group_cols"]:
+        if gdt in ("category", "string"):
+            df[c] = df[c].astype(gdt)
+        elif gdt == "category_reordered":
+            # string categories in a non-lexical order, with one category that no row uses
+            cats = sorted(set(data[c]), reverse=True) + ["~unused~"]
+            df[c] = pd.Categorical(data[c], categories=cats)
     if fr.get("index") == "shuffled":
         idx = list(range(len(rows)))
         idx = idx[1::2] + idx[0::2]
